@@ -845,5 +845,207 @@ Section FromPathCycleProofs.
     intros root st HI. rewrite <- (Q_len _ _ HI). generalize (k_ptasks st) as l.
     induction l as [|t l IH]; simpl; [lia|]. pose proof (tlen_pos t). lia.
   Qed.
+
+  (* when no stage function fails and no visit closes a cycle, no error is ever recorded *)
+  Lemma knofail_no_werrs : forall root st, KInv root st -> filter v_cyc (Wk [] root) = [] ->
+    (forall f, bad f = false) -> (forall f, cbad f = false) -> (forall f, abad f = false) -> k_werrs st = [].
+  Proof.
+    intros root st HI Ac Hb Hc Ha. destruct (k_werrs st) as [|e rest] eqn:We; [reflexivity|].
+    pose proof (Q_werrs _ _ HI e) as G. rewrite We in G. specialize (G (or_introl eq_refl)).
+    destruct e as [f|c|f|f]; cbn [werr_ok] in G; try congruence.
+    destruct G as (anc & f & _ & I & M).
+    assert (I' : In (anc, f) (filter v_cyc (Wk [] root))) by (apply filter_In; split; [exact I|exact M]).
+    rewrite Ac in I'. destruct I'.
+  Qed.
   End CodeAsItIs.
 End FromPathCycleProofs.
+
+(* ------------------------------------------------------------------------------------------
+   Instances.  [g_diamond]: 0 includes 1 and 2, both include 3.  [g_mutual]: 0 includes 1 and 2,
+   which include each other - a cycle that can be entered over two routes.                       *)
+Definition g_diamond (f : nat) : list nat := match f with 0 => [1; 2] | 1 => [3] | 2 => [3] | _ => [] end.
+Definition g_mutual (f : nat) : list nat := match f with 0 => [1; 2] | 1 => [2] | 2 => [1] | _ => [] end.
+
+(* the seeded change seeded/C06c-load-once-set ([once = true]) on g_mutual: if both routes into the
+   cycle have been claimed before either is followed further, every later task finds its file
+   claimed and returns nil - FromPath succeeds and has loaded every file once; if the task for 2
+   below 1 runs before the task for 2 below the root, it claims 2 and its own include of 1 is a
+   cycle - FromPath fails *)
+Definition once_sched_ok : list klabel :=
+  [KStart 0; KSpawn 0; KSpawn 0; KStart 1; KStart 2; KSpawn 1; KSpawn 2; KStart 3; KStart 4].
+Definition once_sched_err : list klabel :=
+  [KStart 0; KSpawn 0; KSpawn 0; KStart 1; KSpawn 1; KStart 3; KSpawn 3; KStart 4].
+
+Lemma once_schedule_dependent :
+  let run s := kdrain g_mutual none none none true 60 (krun g_mutual none none none true s (kinit 0)) in
+  koutcome_of (run once_sched_ok) = KOk [0; 1; 2] /\
+  koutcome_of (run once_sched_err) = KErr (KWCycle [0; 1; 2; 1]).
+Proof. vm_compute. split; reflexivity. Qed.
+
+(* the code as it is on the same two schedules, and on the diamond *)
+Lemma code_same_schedules :
+  let run s := kdrain g_mutual none none none false 80 (krun g_mutual none none none false s (kinit 0)) in
+  (exists c, koutcome_of (run once_sched_ok) = KErr (KWCycle c)) /\
+  (exists c, koutcome_of (run once_sched_err) = KErr (KWCycle c)) /\
+  koutcome_of (kdrain g_diamond none none none false 80 (kinit 0)) = KOk [0; 1; 2; 3; 3] /\
+  koutcome_of (kdrain g_diamond none none none true 80 (kinit 0)) = KOk [0; 1; 2; 3].
+Proof. vm_compute. repeat split; eexists; reflexivity. Qed.
+
+(* ------------------------------------------------------------------------------------------
+   The statements of Properties/C19.v                                                          *)
+Lemma filter_split_length : forall (A : Type) (p : A -> bool) l,
+  length l = length (filter (fun x => negb (p x)) l) + length (filter p l).
+Proof.
+  induction l as [|a l IH]; simpl; [reflexivity|]. destruct (p a); simpl; lia.
+Qed.
+
+Lemma frompath_cycle_terminates : forall inc bad cbad abad once univ root sched,
+  finite_graph inc univ root ->
+  let visits := all_visits inc univ root in
+  let st := krun inc bad cbad abad once sched (kinit root) in
+  (forall anc f, In (anc, f) visits <-> ipath inc root anc f /\ NoDup anc) /\
+  (forall anc f, In (anc, f) (simple_paths inc univ root) <-> ipath inc root anc f /\ NoDup (anc ++ [f])) /\
+  length visits = length (simple_paths inc univ root) + length (cycle_closings inc univ root) /\
+  keffective inc bad cbad abad once sched (kinit root) <= 6 * length visits + 3 /\
+  (once = false -> length (k_ptasks st) <= length visits) /\
+  (once = false -> (forall f, abad f = false) ->
+   (kfinished st = false -> exists l, In l (klabels st) /\ kenabled inc bad cbad abad once st l = true) /\
+   kfinished (kdrain inc bad cbad abad once (6 * length visits + 3) st) = true).
+Proof.
+  intros inc bad cbad abad once univ root sched [Hr Hc] visits st.
+  split; [intros anc f; apply (walks_spec inc univ Hc root anc f Hr)|].
+  split; [intros anc f; apply (simple_paths_spec inc univ Hc root anc f Hr)|].
+  split; [apply (filter_split_length _ v_cyc)|].
+  assert (V0 : KValid inc univ (kinit root)) by (apply kvalid_init; exact Hr).
+  split.
+  { unfold visits. rewrite <- (kmu_init inc univ root). apply keffective_bound_from; assumption. }
+  split.
+  - intros Ho. subst once. unfold visits. rewrite (all_visits_Wk inc univ root).
+    apply (ktasks_bound inc bad cbad abad univ root). apply (reachable_kinv inc bad cbad abad false univ Hc eq_refl root sched Hr).
+  - intros Ho Ha. subst once.
+    pose proof (reachable_kinv inc bad cbad abad false univ Hc eq_refl root sched Hr) as HI. split.
+    + intros F. eapply kdeadlock_free; eauto.
+    + apply (kdrain_finishes_from inc bad cbad abad false univ Hc eq_refl root); auto.
+      unfold visits. rewrite <- (kmu_init inc univ root). apply krun_kmu; assumption.
+Qed.
+
+Lemma frompath_cycle_is_error : forall inc bad cbad abad univ root sched,
+  finite_graph inc univ root -> (forall f, abad f = false) ->
+  cycle_reachable inc root ->
+  let st := krun inc bad cbad abad false sched (kinit root) in
+  (k_synclosed st = true ->
+     exists e rest, k_werrs st = e :: rest /\ parser_stage e = true /\ kgenuine bad cbad abad e = true) /\
+  (forall files, koutcome_of st <> KOk files) /\
+  (kfinished st = true ->
+     exists e, koutcome_of st = KErr e /\ parser_stage e = true /\ kgenuine bad cbad abad e = true) /\
+  (forall c, In (KWCycle c) (k_werrs st) ->
+     exists anc f, c = anc ++ [f] /\ ipath inc root anc f /\ NoDup anc /\ In f anc).
+Proof.
+  intros inc bad cbad abad univ root sched [Hr Hc] Ha Cy st.
+  pose proof (reachable_kinv inc bad cbad abad false univ Hc eq_refl root sched Hr) as HI. fold st in HI.
+  assert (Cc : filter v_cyc (Wk inc univ [] root) <> []).
+  { rewrite <- (all_visits_Wk inc univ root). apply (cycle_reachable_spec inc univ Hc root Hr). exact Cy. }
+  assert (R : k_synclosed st = true ->
+     exists e rest, k_werrs st = e :: rest /\ parser_stage e = true /\ kgenuine bad cbad abad e = true).
+  { intros SC. eapply kcycle_reported; eauto. }
+  split; [exact R|]. split; [|split].
+  - intros files E. unfold koutcome_of in E. destruct (kfinished st) eqn:F; [|discriminate].
+    destruct (kfinished_spec st F) as (SC & _). destruct (R SC) as (e & rest & We & _).
+    rewrite We in E. discriminate.
+  - intros F. destruct (kfinished_spec st F) as (SC & _). destruct (R SC) as (e & rest & We & Pg & G).
+    exists e. split; [|auto]. unfold koutcome_of. rewrite F, We. reflexivity.
+  - intros c Hin. pose proof (Q_werrs _ _ _ _ _ _ _ HI _ Hin) as G. cbn [werr_ok] in G.
+    destruct G as (anc & f & -> & I & M). exists anc, f.
+    rewrite <- (all_visits_Wk inc univ root) in I. apply (walks_spec inc univ Hc root anc f Hr) in I.
+    destruct I as [P ND]. repeat split; auto. apply memn_true. exact M.
+Qed.
+
+Lemma frompath_diamond_loads_twice : forall inc bad cbad abad univ root sched,
+  finite_graph inc univ root ->
+  let st := krun inc bad cbad abad false sched (kinit root) in
+  kfinished st = true -> k_werrs st = [] ->
+  koutcome_of st = KOk (k_added st) /\
+  Permutation (k_added st) (map snd (simple_paths inc univ root)) /\
+  cycle_closings inc univ root = [] /\ ~ cycle_reachable inc root /\
+  k_bld st = BDone /\ k_perrs st = [] /\ k_cerrs st = [] /\ k_pcancel st = false /\ k_ccancel st = false.
+Proof.
+  intros inc bad cbad abad univ root sched [Hr Hc] st F We.
+  pose proof (reachable_kinv inc bad cbad abad false univ Hc eq_refl root sched Hr) as HI. fold st in HI.
+  destruct (kfinished_success inc bad cbad abad univ root st HI F We) as (P & Ac & BD & Pe & Ce & Pc & Cc).
+  assert (CC : cycle_closings inc univ root = []).
+  { unfold cycle_closings. rewrite (all_visits_Wk inc univ root). exact Ac. }
+  split; [unfold koutcome_of; rewrite F, We; reflexivity|].
+  split.
+  { unfold simple_paths. rewrite (all_visits_Wk inc univ root). rewrite filter_all; [exact P|].
+    intros v Hv. unfold v_simple. destruct (v_cyc v) eqn:C; [|reflexivity].
+    assert (I : In v (filter v_cyc (Wk inc univ [] root))) by (apply filter_In; auto).
+    rewrite Ac in I. destruct I. }
+  split; [exact CC|]. split; [|auto 10].
+  intros Cy. apply (cycle_reachable_spec inc univ Hc root Hr) in Cy. contradiction.
+Qed.
+
+Lemma frompath_diamond_loads_twice_ranked : forall inc bad cbad abad rank root sched,
+  (forall f g, In g (inc f) -> rank g < rank f) ->
+  let st := krun inc bad cbad abad false sched (kinit root) in
+  (kfinished st = true -> k_werrs st = [] ->
+     Permutation (k_added st) (expand inc (rank root) root) /\
+     gvisits inc root (expand inc (rank root) root) /\
+     (forall vs, gvisits inc root vs -> Permutation (k_added st) vs)) /\
+  ((forall f, bad f = false) -> (forall f, cbad f = false) -> (forall f, abad f = false) -> k_werrs st = []).
+Proof.
+  intros inc bad cbad abad rank root sched Hrank st.
+  pose proof (ranked_finite inc rank Hrank root) as FG. pose proof FG as [Hr Hc].
+  destruct (all_visits_ranked inc rank Hrank root) as (A & B & C).
+  pose proof (gvisits_ranked inc rank Hrank root) as GV. unfold E in GV.
+  split.
+  - intros F We.
+    destruct (frompath_diamond_loads_twice inc bad cbad abad (E inc rank root) root sched FG F We) as (_ & P & _).
+    rewrite C, A in P. unfold E in P. split; [exact P|]. split; [exact GV|].
+    intros vs Hv. rewrite (gvisits_det inc root vs Hv _ GV). exact P.
+  - intros Hb Hcb Ha.
+    pose proof (reachable_kinv inc bad cbad abad false (E inc rank root) Hc eq_refl root sched Hr) as HI.
+    apply (knofail_no_werrs inc bad cbad abad false (E inc rank root) eq_refl root _ HI); auto.
+    rewrite <- (all_visits_Wk inc (E inc rank root) root). exact B.
+Qed.
+
+Lemma g_mutual_finite : finite_graph g_mutual [0; 1; 2] 0.
+Proof.
+  split; [simpl; auto|]. intros f g Hf Hg. simpl in Hf.
+  destruct Hf as [<-|[<-|[<-|[]]]]; simpl in Hg; intuition (subst; simpl; auto).
+Qed.
+
+Lemma g_mutual_cycle : cycle_reachable g_mutual 0.
+Proof.
+  exists [0; 1; 2], 1. split; [|simpl; auto].
+  apply (ipath_step g_mutual [] 0 [0; 1] 2 1); [|simpl; auto].
+  apply (ipath_step g_mutual [] 0 [0] 1 2); [|simpl; auto].
+  apply (ipath_step g_mutual [] 0 [] 0 1); [constructor|simpl; auto].
+Qed.
+
+Lemma load_once_refuted :
+  finite_graph g_mutual [0; 1; 2] 0 /\ cycle_reachable g_mutual 0 /\
+  let fin s := kdrain g_mutual none none none true (6 * length (all_visits g_mutual [0; 1; 2] 0) + 3)
+                 (krun g_mutual none none none true s (kinit 0)) in
+  koutcome_of (fin once_sched_ok) = KOk [0; 1; 2] /\
+  koutcome_of (fin once_sched_err) = KErr (KWCycle [0; 1; 2; 1]).
+Proof.
+  split; [exact g_mutual_finite|]. split; [exact g_mutual_cycle|]. vm_compute. split; reflexivity.
+Qed.
+
+Lemma example_graphs :
+  finite_graph g_diamond [0; 1; 2; 3] 0 /\ (forall f g, In g (g_diamond f) -> (4 - g) < (4 - f)) /\
+  map snd (simple_paths g_diamond [0; 1; 2; 3] 0) = [0; 1; 3; 2; 3] /\ cycle_closings g_diamond [0; 1; 2; 3] 0 = [] /\
+  koutcome_of (kdrain g_diamond none none none false 80 (kinit 0)) = KOk [0; 1; 2; 3; 3] /\
+  finite_graph g_mutual [0; 1; 2] 0 /\ cycle_reachable g_mutual 0 /\
+  cycle_closings g_mutual [0; 1; 2] 0 = [([0; 1; 2], 1); ([0; 2; 1], 2)] /\
+  koutcome_of (kdrain g_mutual none none none false 80 (kinit 0)) = KErr (KWCycle [0; 1; 2; 1]).
+Proof.
+  split.
+  { split; [simpl; auto|]. intros f g Hf Hg. simpl in Hf.
+    destruct Hf as [<-|[<-|[<-|[<-|[]]]]]; simpl in Hg; intuition (subst; simpl; auto). }
+  split.
+  { intros [|[|[|f]]] g Hg; simpl in Hg; intuition (subst; simpl; lia). }
+  split; [vm_compute; reflexivity|]. split; [vm_compute; reflexivity|]. split; [vm_compute; reflexivity|].
+  split; [exact g_mutual_finite|]. split; [exact g_mutual_cycle|].
+  split; vm_compute; reflexivity.
+Qed.
